@@ -29,12 +29,12 @@ ASSUMPTIONS = ['statements inside the standard library are not preemption points
                'every thread is a fresh thread or a worker serving requests one after another; the application object is the module default app (redirect needs it)']
 
 KINDS = ['echo', 'post', 'raise_resp', 'abort', 'crash', 'nf', 'na', 'big', 'redirect', 'gen', 'multipart', 'json', 'chunked', 'noname_json',
-         'chunked_form', 'echo10', 'redirect10', 'session', 'static', 'static_denied', 'logout', 'relogin', 'bigfile']
+         'chunked_form', 'echo10', 'redirect10', 'session', 'static', 'static_denied', 'logout', 'relogin', 'bigfile', 'extattr', 'static_range']
 _APP = {}
 
 
 # kinds whose whole answer is text around the request's marker (no signatures or lengths derived from it)
-MARKER_ONLY_KINDS = ('bigfile', 'logout', 'relogin', 'echo', 'echo10', 'redirect', 'redirect10', 'nf', 'na', 'abort', 'raise_resp', 'gen', 'crash', 'static', 'static_denied')
+MARKER_ONLY_KINDS = ('extattr', 'bigfile', 'logout', 'relogin', 'echo', 'echo10', 'redirect', 'redirect10', 'nf', 'na', 'abort', 'raise_resp', 'gen', 'crash', 'static', 'static_denied')
 OWN_TEXT = {'echo': lambda m: 'http://' + m + '.example/echo/', 'echo10': lambda m: 'http://' + m + '.example:8080/echo/', 'redirect': lambda m: 'http://' + m + '.example/to/',
             'redirect10': lambda m: 'http://' + m + '.example/to/'}
 _STATIC = {}
@@ -55,7 +55,8 @@ def static_root():
 
 def static_files_for(m):
     base = static_root()
-    for p, content in ((os.path.join(base, 'www', 'ok-' + m + '.txt'), ('public file of ' + m + ' ') * 3), (os.path.join(base, 'secret-' + m + '.txt'), 'SECRET above the root, ' + m)):
+    for p, content in ((os.path.join(base, 'www', 'ok-' + m + '.txt'), ('public file of ' + m + ' ') * 3), (os.path.join(base, 'secret-' + m + '.txt'), 'SECRET above the root, ' + m),
+                       (os.path.join(base, 'www', 'big-' + m + '.bin'), (m + '#') * (40000 // (len(m) + 1)))):
         if not os.path.exists(p):
             with open(p, 'w') as f:
                 f.write(content)
@@ -165,6 +166,15 @@ def get_app():
         m = rq.query.get('m')
         return io.BytesIO((m + '|').encode() * (200000 // (len(m) + 1)))
 
+    def extattr():
+        # application-defined request attributes (stored by the framework in the environ of that request)
+        m = rq.query.get('m')
+        rq.who = 'user-' + m
+        rq.cart = []
+        rq.cart.append(rq.path)
+        rq.cart.append(rq.who)
+        return 'who=%s cart=%r keys=%r' % (rq.who, rq.cart, sorted(k for k in rq.environ if k.startswith('ombott.request.ext.')))
+
     def logout():
         rs.delete_cookie('sid', path='/')
         return 'bye ' + rq.query.get('m')
@@ -185,6 +195,7 @@ def get_app():
     app.route('/session', 'GET', session)
     app.route('/logout', 'GET', logout)
     app.route('/bigfile', 'GET', bigfile)
+    app.route('/extattr', 'GET', extattr)
     app.route('/relogin', 'GET', relogin)
     app.route('/mp', 'POST', multipart)
     app.route('/json', 'POST', json_)
@@ -250,8 +261,12 @@ def make_env(kind, m):
         return make_environ('GET', '/echo/' + m, qs='m=' + m, headers={'X-M': m, 'Cookie': 'c=' + m, 'Host': m + '.example:8080'}, flavour='http10')
     if kind == 'redirect10':
         return make_environ('GET', '/redirect', qs='m=' + m, headers={'Host': m + '.example'}, flavour='http10')
-    if kind in ('logout', 'relogin', 'bigfile'):
+    if kind in ('logout', 'relogin', 'bigfile', 'extattr'):
         return make_environ('GET', '/' + kind, qs='m=' + m)
+    if kind == 'static_range':
+        # a slice out of the middle of a file of the request's own, streamed by the framework in pieces
+        static_files_for(m)
+        return make_environ('GET', '/static/big-' + m + '.bin', qs='m=' + m, headers={'Range': 'bytes=%d-%d' % (len(m) + 3, 30000 + len(m))})
     if kind in ('static', 'static_denied'):
         static_files_for(m)
         return make_environ('GET', '/static/ok-' + m + '.txt' if kind == 'static' else '/static/../secret-' + m + '.txt', qs='m=' + m)
@@ -300,7 +315,7 @@ class Lab:
             res, info = self.sched.run([job(self.app, [(kind, m)])], [])
             assert res[0][0] == 'ok', res
             status = res[0][1][0][0]
-            expect_ok = kind in ('echo', 'post', 'raise_resp', 'gen', 'multipart', 'json', 'chunked', 'redirect', 'chunked_form', 'echo10', 'redirect10', 'session', 'static', 'logout', 'relogin', 'bigfile')
+            expect_ok = kind in ('echo', 'post', 'raise_resp', 'gen', 'multipart', 'json', 'chunked', 'redirect', 'chunked_form', 'echo10', 'redirect10', 'session', 'static', 'logout', 'relogin', 'bigfile', 'extattr', 'static_range')
             if expect_ok and not status.startswith(('2', '3')):
                 raise AssertionError(f'harness: kind {kind} is meant to succeed but answers {status} when served alone: {res[0][1][0][2][:200]!r}')
             # the reference itself must be clean: a request served alone cannot carry what earlier requests of this process brought
@@ -367,7 +382,7 @@ class Lab:
 
 PAIRS_QUICK = [('echo', 'echo'), ('echo', 'post'), ('raise_resp', 'echo'), ('crash', 'abort'), ('big', 'big'), ('nf', 'redirect'), ('gen', 'echo'), ('na', 'post'),
                ('multipart', 'json'), ('json', 'echo'), ('chunked', 'chunked'), ('chunked', 'post'), ('noname_json', 'noname_json'), ('multipart', 'multipart'),
-               ('chunked_form', 'chunked_form'), ('chunked_form', 'echo'), ('echo10', 'echo10'), ('redirect10', 'echo10'), ('session', 'session'), ('static', 'static_denied'), ('static', 'static'), ('logout', 'relogin'), ('relogin', 'relogin'), ('bigfile', 'bigfile'), ('gen', 'gen'), ('gen', 'bigfile')]
+               ('chunked_form', 'chunked_form'), ('chunked_form', 'echo'), ('echo10', 'echo10'), ('redirect10', 'echo10'), ('session', 'session'), ('static', 'static_denied'), ('static', 'static'), ('logout', 'relogin'), ('relogin', 'relogin'), ('bigfile', 'bigfile'), ('gen', 'gen'), ('gen', 'bigfile'), ('extattr', 'extattr'), ('static_range', 'static_range'), ('static_range', 'static')]
 
 
 def one_preemption(ctx, lab, a, b, stride=1):
